@@ -490,6 +490,7 @@ def run_session(world, spec, record_events=False):
     def write(string, *a, **kw):
         obs["replies"].append(str(string))
         obs["events_at_reply"].append(len(inj.events))
+        inj.plan = None  # faults are aimed at the request under test only, never at the sentinel
         return real_write(string, *a, **kw)
 
     ebp.write = write
